@@ -37,10 +37,8 @@ func ruleG4(c *Ctx, id string) {
 	leaves := map[string][]string{}
 	pos := map[string]string{}
 	for _, h := range c.V.NfsProcs {
-		for _, p := range h.Params {
-			if p.Name() == "args" {
-				leaves[h.Name()] = handleLeaves(p.Type(), "", 0)
-			}
+		if p := requestParam(h); p != nil {
+			leaves[h.Name()] = handleLeaves(p.Type(), "", 0)
 		}
 		pos[h.Name()] = P.Pos(h.Pos())
 	}
